@@ -286,6 +286,7 @@ func (r *aggregatorRole) updateStatus(s task.Status) {
 	}
 	verifhook.Point("role.enter", "node", r.Name, "kind", "status", "v", int(s))
 	oldStatus := r.status.get()
+	verifhook.Point("role.sampled", "node", r.Name, "kind", "status", "v", int(oldStatus))
 	log.WithFields(logrus.Fields{
 		"child status":      s.String(),
 		"aggregator status": r.status.get().String(),
@@ -317,6 +318,7 @@ func (r *aggregatorRole) updateState(s sm.State) {
 	}
 	verifhook.Point("role.enter", "node", r.Name, "kind", "state", "v", int(s))
 	oldState := r.state.get()
+	verifhook.Point("role.sampled", "node", r.Name, "kind", "state", "v", int(oldState))
 	r.state.merge(s, r)
 	log.WithField("role", r.Name).
 		WithField("partition", r.GetEnvironmentId().String()).
